@@ -360,3 +360,1526 @@ Proof.
   destruct n as [o ch]. cbn [nop]. intros H. rewrite rename_with_var_children. cbn [rename_tree]. f_equal.
   destruct o; try reflexivity; discriminate.
 Qed.
+
+(* ------------------------------------------------------------------------------------------ *)
+(* the evaluators with the nested `fix args` as a standalone function                          *)
+(* ------------------------------------------------------------------------------------------ *)
+
+Section WithOracle.
+Variable O : std_oracle.
+
+Fixpoint eval_ro_args (l : list node) (c : ctx) (lg : log) : outcome (list value) * log :=
+  match l with
+  | [] => (Ok [], lg)
+  | x :: l' =>
+      match eval_ro O x c lg with
+      | (Ok v, lg1) =>
+          match eval_ro_args l' c lg1 with
+          | (Ok vs, lg2) => (Ok (v :: vs), lg2)
+          | r => r
+          end
+      | (Err e, lg1) => (Err e, lg1)
+      | (Panic s, lg1) => (Panic s, lg1)
+      end
+  end.
+
+Fixpoint eval_mut_args (l : list node) (c : ctx) (lg : log) : outcome (list value) * ctx * log :=
+  match l with
+  | [] => (Ok [], c, lg)
+  | x :: l' =>
+      match eval_mut O x c lg with
+      | (Ok v, c1, lg1) =>
+          match eval_mut_args l' c1 lg1 with
+          | (Ok vs, c2, lg2) => (Ok (v :: vs), c2, lg2)
+          | r => r
+          end
+      | (Err e, c1, lg1) => (Err e, c1, lg1)
+      | (Panic s, c1, lg1) => (Panic s, c1, lg1)
+      end
+  end.
+
+Lemma eval_ro_unfold o ch c lg :
+  eval_ro O (Node o ch) c lg =
+  match eval_ro_args ch c lg with
+  | (Ok vs, lg1) => op_eval O o vs c lg1
+  | (Err e, lg1) => (Err e, lg1)
+  | (Panic s, lg1) => (Panic s, lg1)
+  end.
+Proof.
+  cbn [eval_ro].
+  match goal with |- match ?F ch lg with _ => _ end = _ =>
+    assert (HF : forall l lg0, F l lg0 = eval_ro_args l c lg0) end.
+  { induction l as [|x l IH]; intros lg0; [reflexivity|].
+    simpl. destruct (eval_ro O x c lg0) as [[v|e|s] lg1]; try reflexivity.
+    rewrite IH. reflexivity. }
+  rewrite HF. reflexivity.
+Qed.
+
+Lemma eval_mut_unfold o ch c lg :
+  eval_mut O (Node o ch) c lg =
+  match eval_mut_args ch c lg with
+  | (Ok vs, c1, lg1) => op_eval_mut O o vs c1 lg1
+  | (Err e, c1, lg1) => (Err e, c1, lg1)
+  | (Panic s, c1, lg1) => (Panic s, c1, lg1)
+  end.
+Proof.
+  cbn [eval_mut].
+  match goal with |- match ?F ch c lg with _ => _ end = _ =>
+    assert (HF : forall l c0 lg0, F l c0 lg0 = eval_mut_args l c0 lg0) end.
+  { induction l as [|x l IH]; intros c0 lg0; [reflexivity|].
+    reflexivity. }
+  rewrite HF. reflexivity.
+Qed.
+
+End WithOracle.
+
+(* ------------------------------------------------------------------------------------------ *)
+(* "clean" outcomes: not one of the two NotFound errors                                        *)
+(* ------------------------------------------------------------------------------------------ *)
+
+Definition nf_err (e : error) : bool :=
+  match e with EVariableIdentifierNotFound _ | EFunctionIdentifierNotFound _ => true | _ => false end.
+
+Definition clean {A} (r : outcome A) : Prop := forall e, r = Err e -> nf_err e = false.
+
+Lemma clean_ok {A} (a : A) : clean (Ok a).
+Proof. intros e H; discriminate. Qed.
+Lemma clean_panic {A} s : clean (@Panic A s).
+Proof. intros e H; discriminate. Qed.
+Lemma clean_err {A} e : nf_err e = false -> clean (@Err A e).
+Proof. intros He e' H. injection H as <-. exact He. Qed.
+Lemma clean_bind {A B} (r : outcome A) (f : A -> outcome B) :
+  clean r -> (forall a, clean (f a)) -> clean (bind r f).
+Proof. intros Hr Hf. destruct r as [a|e|s]; cbn [bind]; [apply Hf| |apply clean_panic]. intros e' H. injection H as <-. apply Hr. reflexivity. Qed.
+
+Lemma clean_is_not_found (r : outcome value) : clean r <-> is_not_found r = false.
+Proof.
+  split.
+  - intros H. destruct r as [v|e|s]; try reflexivity. specialize (H e eq_refl). destruct e; try reflexivity; discriminate.
+  - intros H e ->. destruct e; try reflexivity; discriminate.
+Qed.
+
+Lemma clean_not_vnf {A} (r : outcome A) x : clean r -> r <> Err (EVariableIdentifierNotFound x).
+Proof. intros H E. specialize (H _ E). discriminate. Qed.
+Lemma clean_not_fnf {A} (r : outcome A) x : clean r -> r <> Err (EFunctionIdentifierNotFound x).
+Proof. intros H E. specialize (H _ E). discriminate. Qed.
+
+Ltac clean_step :=
+  first
+    [ apply clean_ok
+    | apply clean_panic
+    | apply clean_err; reflexivity
+    | assumption
+    | apply clean_bind; [|intros ?]
+    | match goal with
+      | |- clean (match ?x with _ => _ end) => destruct x
+      | |- clean (if ?b then _ else _) => destruct b
+      end ].
+Ltac clean_tac := repeat clean_step.
+
+Lemma clean_expect_amount a b : clean (expect_operator_argument_amount a b).
+Proof. unfold expect_operator_argument_amount. clean_tac. Qed.
+Lemma clean_arg l i s : clean (arg l i s).
+Proof. unfold arg. clean_tac. Qed.
+Lemma clean_idx l i s : clean (idx l i s).
+Proof. unfold idx. clean_tac. Qed.
+Lemma clean_as_number v : clean (as_number v).
+Proof. unfold as_number. clean_tac. Qed.
+Lemma clean_as_boolean v : clean (as_boolean v).
+Proof. unfold as_boolean. clean_tac. Qed.
+Lemma clean_as_string v : clean (as_string v).
+Proof. unfold as_string. clean_tac. Qed.
+Lemma clean_as_int v : clean (as_int v).
+Proof. unfold as_int. clean_tac. Qed.
+Lemma clean_as_fixed v n : clean (as_fixed_len_tuple v n).
+Proof. unfold as_fixed_len_tuple. clean_tac. Qed.
+Lemma clean_as_ranged v a b : clean (as_ranged_len_tuple v a b).
+Proof. unfold as_ranged_len_tuple. clean_tac. Qed.
+Lemma clean_expect_nos v : clean (expect_number_or_string v).
+Proof. unfold expect_number_or_string. clean_tac. Qed.
+Lemma clean_checked z e : nf_err e = false -> clean (checked z e).
+Proof. intros H. unfold checked. clean_tac. apply clean_err, H. Qed.
+Lemma clean_checked_div a b : clean (checked_div a b).
+Proof. unfold checked_div. clean_tac. Qed.
+Lemma clean_checked_rem a b : clean (checked_rem a b).
+Proof. unfold checked_rem. clean_tac. Qed.
+
+Ltac clean_base :=
+  first
+    [ apply clean_expect_amount | apply clean_arg | apply clean_idx | apply clean_as_number
+    | apply clean_as_boolean | apply clean_as_string | apply clean_as_int | apply clean_as_fixed
+    | apply clean_as_ranged | apply clean_expect_nos | apply clean_checked_div | apply clean_checked_rem
+    | apply clean_checked; reflexivity ].
+Ltac clean_all := repeat first [clean_base | clean_step].
+
+Section WithOracle.
+Variable O : std_oracle.
+
+(* ---- builtins ---- *)
+
+Lemma clean_extremum_loop sm : forall l best, clean (extremum_loop sm best l).
+Proof.
+  induction l as [|a l IH]; intros best; cbn [extremum_loop]; [apply clean_ok|].
+  apply clean_bind; [|intros b; apply IH].
+  unfold beats. clean_all.
+Qed.
+
+Lemma clean_contains_any_loop a : forall b found, clean (contains_any_loop a found b).
+Proof.
+  induction b as [|v b IH]; intros found; cbn [contains_any_loop]; [apply clean_ok|].
+  destruct (is_primitive v); [apply IH|apply clean_err; reflexivity].
+Qed.
+
+Lemma clean_builtin_table : Forall (fun p => forall a, clean (snd p a)) (builtin_table O).
+Proof.
+  unfold builtin_table.
+  repeat (apply Forall_cons; [intros a; cbn [snd]|]); try apply Forall_nil.
+  all: try (unfold simple_math1, simple_math2, float_is, int_function1, int_function2, b_typeof, b_if, b_contains,
+                   b_to_lowercase, b_to_uppercase, b_trim, b_str_from, b_substring; clean_all; fail).
+  - unfold b_abs, checked_abs. clean_all.
+  - unfold extremum. apply clean_bind; [clean_all|intros l]. apply clean_bind; [apply clean_extremum_loop|intros b]. clean_all.
+  - unfold extremum. apply clean_bind; [clean_all|intros l]. apply clean_bind; [apply clean_extremum_loop|intros b]. clean_all.
+  - unfold b_contains_any.
+    apply clean_bind; [clean_all|intros t]. apply clean_bind; [clean_all|intros x0]. apply clean_bind; [clean_all|intros y0].
+    destruct x0; try (apply clean_err; reflexivity). destruct y0; try (apply clean_err; reflexivity).
+    apply clean_bind; [apply clean_contains_any_loop|intros found; apply clean_ok].
+  - unfold b_len. clean_all.
+Qed.
+
+Lemma lookup_builtin_in name t b : lookup_builtin name t = Some b -> exists n, In (n, b) t.
+Proof.
+  induction t as [|[n f] t IH]; cbn [lookup_builtin]; [discriminate|].
+  destruct (str_eqb name (s2l n)).
+  - intros H. injection H as <-. exists n. left. reflexivity.
+  - intros H. destruct (IH H) as [n' Hn']. exists n'. right. exact Hn'.
+Qed.
+
+Lemma clean_builtin f b a : builtin_function O f = Some b -> clean (b a).
+Proof.
+  unfold builtin_function. intros H. apply lookup_builtin_in in H. destruct H as [n Hn].
+  pose proof clean_builtin_table as HT. rewrite Forall_forall in HT. apply (HT _ Hn a).
+Qed.
+
+End WithOracle.
+
+(* ------------------------------------------------------------------------------------------ *)
+(* C14_not_found                                                                               *)
+(* ------------------------------------------------------------------------------------------ *)
+
+(* operators whose evaluation does not look at the context *)
+Definition is_ctx_free (o : operator) : bool :=
+  match o with OVariableIdentifierRead _ | OFunctionIdentifier _ => false | _ => true end.
+
+(* the parts of a context that evaluation never changes *)
+Definition same_funs (c c' : ctx) : Prop :=
+  c_kind c = c_kind c' /\ c_funs c = c_funs c' /\ c_off c = c_off c'.
+
+Lemma same_funs_refl c : same_funs c c.
+Proof. repeat split. Qed.
+Lemma same_funs_trans a b c : same_funs a b -> same_funs b c -> same_funs a c.
+Proof. intros (H1 & H2 & H3) (H4 & H5 & H6). repeat split; congruence. Qed.
+
+Lemma same_funs_lookup c c' f : same_funs c c' -> lookup_function c' f = lookup_function c f.
+Proof. intros (H1 & H2 & H3). unfold lookup_function, has_store. rewrite H1, H2. reflexivity. Qed.
+Lemma same_funs_disabled c c' : same_funs c c' -> are_builtin_functions_disabled c' = are_builtin_functions_disabled c.
+Proof. intros (H1 & H2 & H3). unfold are_builtin_functions_disabled. rewrite H1, H3. reflexivity. Qed.
+Lemma same_funs_never c c' : same_funs c c' -> functions_never_not_found c -> functions_never_not_found c'.
+Proof. intros (H1 & H2 & H3) H f g a Hin. rewrite <- H2 in Hin. exact (H f g a Hin). Qed.
+
+Lemma set_value_same_funs c x v c' : set_value c x v = Ok c' -> same_funs c c'.
+Proof.
+  unfold set_value. destruct (c_kind c) eqn:Ek; try discriminate.
+  destruct (assoc x (c_vars c)) as [ex|].
+  - destruct (vtype_eqb (type_of ex) (type_of v)); [|discriminate].
+    intros H. injection H as <-. unfold same_funs. cbn [c_kind c_funs c_off]. auto.
+  - intros H. injection H as <-. unfold same_funs. cbn [c_kind c_funs c_off]. auto.
+Qed.
+
+Lemma clean_set_value c x v : clean (set_value c x v).
+Proof.
+  unfold set_value, expected_type. clean_all. apply clean_err. destruct (type_of v0); reflexivity.
+Qed.
+
+Lemma assoc_in {A} k (l : list (str * A)) v : assoc k l = Some v -> exists k', In (k', v) l.
+Proof.
+  induction l as [|[k' v'] l IH]; cbn [assoc]; [discriminate|].
+  destruct (str_eqb k k').
+  - intros H. injection H as <-. exists k'. left. reflexivity.
+  - intros H. destruct (IH H) as [k2 H2]. exists k2. right. exact H2.
+Qed.
+
+Section WithOracle.
+Variable O : std_oracle.
+
+Lemma op_eval_ctx_free o args c c' lg : is_ctx_free o = true ->
+  op_eval O o args c lg = op_eval O o args c' lg.
+Proof. destruct o; try discriminate; reflexivity. Qed.
+
+Lemma op_eval_ctx_free_log o args c lg : is_ctx_free o = true -> snd (op_eval O o args c lg) = lg.
+Proof. destruct o; try discriminate; reflexivity. Qed.
+
+Lemma op_eval_clean o args c lg : is_ctx_free o = true -> clean (fst (op_eval O o args c lg)).
+Proof.
+  destruct o; try discriminate; intros _; cbn [op_eval fst];
+    unfold arith, compare_op, bool_op, checked_add, checked_sub, checked_mul, checked_neg; clean_all.
+Qed.
+
+(* what call_function can answer *)
+Lemma call_function_nf c lg f a : functions_never_not_found c ->
+  forall e, fst (call_function O c lg f a) = Err e -> nf_err e = true ->
+  e = EFunctionIdentifierNotFound f /\ lookup_function c f = None /\
+  (are_builtin_functions_disabled c = true \/ builtin_function O f = None).
+Proof.
+  intros Hfun e. unfold call_function.
+  destruct (lookup_function c f) as [g|] eqn:El.
+  - assert (Hg : clean (g a)).
+    { apply clean_is_not_found. unfold lookup_function in El. destruct (has_store c); [|discriminate].
+      apply assoc_in in El. destruct El as [k Hk]. exact (Hfun k g a Hk). }
+    destruct (g a) as [v|e'|s] eqn:Eg; cbn [fst]; try discriminate.
+    pose proof (Hg e' eq_refl) as Hc.
+    destruct e'; cbn [fst]; try discriminate Hc; intros H; injection H as <-; discriminate.
+  - destruct (are_builtin_functions_disabled c) eqn:Ed; cbn [fst].
+    + intros H _. injection H as <-. auto.
+    + destruct (builtin_function O f) as [b|] eqn:Eb; cbn [fst].
+      * intros H Hn. pose proof (clean_builtin O f b a Eb e H) as Hc. congruence.
+      * intros H _. injection H as <-. auto.
+Qed.
+
+Lemma op_eval_nf o args c lg : functions_never_not_found c ->
+  forall e, fst (op_eval O o args c lg) = Err e -> nf_err e = true ->
+  (exists x, o = OVariableIdentifierRead x /\ e = EVariableIdentifierNotFound x) \/
+  (exists f, o = OFunctionIdentifier f /\ e = EFunctionIdentifierNotFound f /\ lookup_function c f = None /\
+             (are_builtin_functions_disabled c = true \/ builtin_function O f = None)).
+Proof.
+  intros Hfun e He Hn.
+  destruct (is_ctx_free o) eqn:Ef.
+  - pose proof (op_eval_clean o args c lg Ef e He). congruence.
+  - destruct o; try discriminate Ef; cbn [op_eval] in He.
+    + left. exists s. split; [reflexivity|].
+      destruct (expect_operator_argument_amount (nargs args) 0) as [u|e'|p] eqn:Ea; cbn [bind fst] in He; try discriminate.
+      * destruct (get_value c s); [discriminate|]. injection He as <-. reflexivity.
+      * injection He as <-. pose proof (clean_expect_amount _ _ _ Ea). congruence.
+    + right. exists s. split; [reflexivity|].
+      destruct (expect_operator_argument_amount (nargs args) 1) as [u|e'|p] eqn:Ea; cbn [fst] in He; try discriminate.
+      * destruct (arg args 0 76) as [a|e'|p] eqn:Eg; cbn [fst] in He; try discriminate.
+        -- apply (call_function_nf c lg s a Hfun e He Hn).
+        -- injection He as <-. pose proof (clean_arg _ _ _ _ Eg). congruence.
+      * injection He as <-. pose proof (clean_expect_amount _ _ _ Ea). congruence.
+Qed.
+
+Lemma assign_base_ctx_free o b : assign_base o = Some b -> is_ctx_free b = true.
+Proof. destruct o; try discriminate; intros H; injection H as <-; reflexivity. Qed.
+
+(* the body of the = arm and of the op= arm of Operator::eval_mut *)
+Definition assign_chain (args : list value) (c : ctx) : outcome ctx :=
+  do _ <- expect_operator_argument_amount (nargs args) 2;
+  do a0 <- arg args 0 77; do target <- as_string a0;
+  do v <- arg args 1 78;
+  set_value c target v.
+
+Definition opassign_chain (o : operator) (args : list value) (c : ctx) (lg : log) : outcome ctx :=
+  do _ <- expect_operator_argument_amount (nargs args) 2;
+  do a0 <- arg args 0 79; do target <- as_string a0;
+  do left <- fst (op_eval O (OVariableIdentifierRead target) [] c lg);
+  do right <- arg args 1 80;
+  do base <- match assign_base o with Some b => Ok b | None => Panic 30 end;
+  do result <- fst (op_eval O base [left; right] c lg);
+  set_value c target result.
+
+Definition finish (c : ctx) (lg : log) (r : outcome ctx) : outcome value * ctx * log :=
+  match r with Ok c' => (Ok VEmpty, c', lg) | Err e => (Err e, c, lg) | Panic s => (Panic s, c, lg) end.
+
+Lemma op_eval_mut_eq o args c lg :
+  op_eval_mut O o args c lg =
+  match o with
+  | OAssign => finish c lg (assign_chain args c)
+  | OAddAssign | OSubAssign | OMulAssign | ODivAssign | OModAssign | OExpAssign | OAndAssign | OOrAssign =>
+      finish c lg (opassign_chain o args c lg)
+  | _ => let '(r, lg') := op_eval O o args c lg in (r, c, lg')
+  end.
+Proof. destruct o; reflexivity. Qed.
+
+Lemma op_eval_mut_nonassign o args c lg : is_assignment_op o = false ->
+  op_eval_mut O o args c lg = (fst (op_eval O o args c lg), c, snd (op_eval O o args c lg)).
+Proof.
+  intros H. rewrite op_eval_mut_eq. destruct o; try discriminate H; destruct (op_eval O _ args c lg); reflexivity.
+Qed.
+
+Lemma op_eval_mut_assign o args c lg : is_assignment_op o = true ->
+  op_eval_mut O o args c lg =
+  finish c lg (match o with OAssign => assign_chain args c | _ => opassign_chain o args c lg end).
+Proof. intros H. rewrite op_eval_mut_eq. destruct o; try discriminate H; reflexivity. Qed.
+
+Lemma clean_assign_chain args c : clean (assign_chain args c).
+Proof. unfold assign_chain. clean_all. apply clean_set_value. Qed.
+
+Lemma assign_chain_same_funs args c c' : assign_chain args c = Ok c' -> same_funs c c'.
+Proof.
+  unfold assign_chain. intros H.
+  repeat (apply bind_ok in H; destruct H as [? [_ H]]). eapply set_value_same_funs, H.
+Qed.
+
+Lemma opassign_chain_same_funs o args c lg c' : opassign_chain o args c lg = Ok c' -> same_funs c c'.
+Proof.
+  unfold opassign_chain. intros H.
+  repeat (apply bind_ok in H; destruct H as [? [_ H]]). eapply set_value_same_funs, H.
+Qed.
+
+(* an op= answers "variable not found" only for its own target *)
+Lemma opassign_chain_nf o args c lg e :
+  opassign_chain o args c lg = Err e -> nf_err e = true ->
+  exists x rest, args = VString x :: rest /\ e = EVariableIdentifierNotFound x.
+Proof.
+  unfold opassign_chain. intros He Hn.
+  destruct (expect_operator_argument_amount (nargs args) 2) as [u|e'|p] eqn:Ea; cbn [bind] in He; try discriminate.
+  2:{ injection He as <-. pose proof (clean_expect_amount _ _ _ Ea). congruence. }
+  destruct args as [|a0 rest]; [discriminate Ea|].
+  cbn [arg nth_opt bind] in He.
+  destruct a0 as [x| | | | |]; cbn [as_string bind] in He; try (injection He as <-; discriminate Hn).
+  exists x, rest. split; [reflexivity|].
+  cbn [op_eval fst nargs length N.of_nat expect_operator_argument_amount N.eqb bind] in He.
+  destruct (get_value c x) as [v|]; cbn [bind] in He.
+  - exfalso.
+    match type of He with ?t = _ => assert (Hc : clean t) end.
+    { apply clean_bind; [clean_all|intros right].
+      destruct (assign_base o) as [b|] eqn:Eb; cbn [bind]; [|apply clean_panic].
+      apply clean_bind; [apply op_eval_clean, (assign_base_ctx_free o b Eb)|intros r; apply clean_set_value]. }
+    pose proof (Hc e He). congruence.
+  - injection He as <-. reflexivity.
+Qed.
+
+(* Operator::eval_mut: context parts kept, and which NotFound errors it can produce *)
+Lemma op_eval_mut_same_funs o args c lg : same_funs c (snd (fst (op_eval_mut O o args c lg))).
+Proof.
+  destruct (is_assignment_op o) eqn:Ea.
+  - rewrite (op_eval_mut_assign o args c lg Ea).
+    destruct o; try discriminate Ea; cbn [snd fst].
+    + destruct (assign_chain args c) eqn:E; cbn [finish fst snd]; try apply same_funs_refl. eapply assign_chain_same_funs, E.
+    + destruct (opassign_chain _ args c lg) eqn:E; cbn [finish fst snd]; try apply same_funs_refl. eapply opassign_chain_same_funs, E.
+    + destruct (opassign_chain _ args c lg) eqn:E; cbn [finish fst snd]; try apply same_funs_refl. eapply opassign_chain_same_funs, E.
+    + destruct (opassign_chain _ args c lg) eqn:E; cbn [finish fst snd]; try apply same_funs_refl. eapply opassign_chain_same_funs, E.
+    + destruct (opassign_chain _ args c lg) eqn:E; cbn [finish fst snd]; try apply same_funs_refl. eapply opassign_chain_same_funs, E.
+    + destruct (opassign_chain _ args c lg) eqn:E; cbn [finish fst snd]; try apply same_funs_refl. eapply opassign_chain_same_funs, E.
+    + destruct (opassign_chain _ args c lg) eqn:E; cbn [finish fst snd]; try apply same_funs_refl. eapply opassign_chain_same_funs, E.
+    + destruct (opassign_chain _ args c lg) eqn:E; cbn [finish fst snd]; try apply same_funs_refl. eapply opassign_chain_same_funs, E.
+    + destruct (opassign_chain _ args c lg) eqn:E; cbn [finish fst snd]; try apply same_funs_refl. eapply opassign_chain_same_funs, E.
+  - rewrite (op_eval_mut_nonassign o args c lg Ea). apply same_funs_refl.
+Qed.
+
+Lemma finish_err c lg r e : fst (fst (finish c lg r)) = Err e -> r = Err e.
+Proof. destruct r; cbn; intros H; try discriminate. congruence. Qed.
+
+Lemma op_eval_mut_nf o args c lg : functions_never_not_found c ->
+  forall e, fst (fst (op_eval_mut O o args c lg)) = Err e -> nf_err e = true ->
+  (exists x, o = OVariableIdentifierRead x /\ e = EVariableIdentifierNotFound x) \/
+  (exists f, o = OFunctionIdentifier f /\ e = EFunctionIdentifierNotFound f /\ lookup_function c f = None /\
+             (are_builtin_functions_disabled c = true \/ builtin_function O f = None)) \/
+  (is_assignment_op o = true /\ exists x rest, args = VString x :: rest /\ e = EVariableIdentifierNotFound x).
+Proof.
+  intros Hfun e He Hn.
+  destruct (is_assignment_op o) eqn:Ea.
+  - right. right. split; [reflexivity|].
+    rewrite (op_eval_mut_assign o args c lg Ea) in He. apply finish_err in He.
+    destruct o; try discriminate Ea; try (apply (opassign_chain_nf _ args c lg e He Hn)).
+    pose proof (clean_assign_chain args c e He). congruence.
+  - rewrite (op_eval_mut_nonassign o args c lg Ea) in He. cbn [fst] in He.
+    destruct (op_eval_nf o args c lg Hfun e He Hn) as [H|H]; [left|right; left]; exact H.
+Qed.
+
+(* ---- whole trees ---- *)
+
+Definition var_in (x : str) (n : node) : Prop := exists d, In d (preorder n) /\ ident_var (nop d) = Some x.
+Definition read_in (x : str) (n : node) : Prop := exists d, In d (preorder n) /\ ident_read (nop d) = Some x.
+Definition fn_in (f : str) (n : node) : Prop := exists d, In d (preorder n) /\ ident_fn (nop d) = Some f.
+
+Lemma preorder_child o ch k d : In k ch -> In d (preorder k) -> In d (preorder (Node o ch)).
+Proof.
+  intros Hk Hd. right. cbn [preorder_descendants]. apply in_flat_map. exists k. split; [exact Hk|exact Hd].
+Qed.
+
+(* the post-condition of one evaluation, relative to the context it started from *)
+Definition nf_post (V : str -> node -> Prop) (P : (node -> Prop) -> Prop) (c : ctx) (e : error) : Prop :=
+  (forall x, e = EVariableIdentifierNotFound x -> P (V x)) /\
+  (forall f, e = EFunctionIdentifierNotFound f ->
+     P (fn_in f) /\ lookup_function c f = None /\
+     (are_builtin_functions_disabled c = true \/ builtin_function O f = None)).
+
+Lemma leaf_write_eval_mut x c lg :
+  eval_mut O (Node (OVariableIdentifierWrite x) []) c lg = (Ok (VString x), c, lg).
+Proof. reflexivity. Qed.
+
+Lemma leaf_write_eval_ro x c lg :
+  eval_ro O (Node (OVariableIdentifierWrite x) []) c lg = (Ok (VString x), lg).
+Proof. reflexivity. Qed.
+
+Lemma eval_mut_args_head_write x rest c lg :
+  eval_mut_args O (Node (OVariableIdentifierWrite x) [] :: rest) c lg =
+  match eval_mut_args O rest c lg with
+  | (Ok vs, c2, lg2) => (Ok (VString x :: vs), c2, lg2)
+  | r => r
+  end.
+Proof. cbn [eval_mut_args]. rewrite leaf_write_eval_mut. reflexivity. Qed.
+
+Lemma eval_mut_args_ok_head x rest c lg vs c' lg' :
+  eval_mut_args O (Node (OVariableIdentifierWrite x) [] :: rest) c lg = (Ok vs, c', lg') ->
+  exists vs', vs = VString x :: vs'.
+Proof.
+  rewrite eval_mut_args_head_write. destruct (eval_mut_args O rest c lg) as [[[vs0|e|s] c2] lg2]; intros H; try discriminate.
+  injection H as <- _ _. eauto.
+Qed.
+
+Definition mut_ok (n : node) : Prop :=
+  forall c lg, functions_never_not_found c -> targets_are_identifiers n ->
+    same_funs c (snd (fst (eval_mut O n c lg))) /\
+    forall e, fst (fst (eval_mut O n c lg)) = Err e -> nf_post var_in (fun Q => Q n) c e.
+
+Lemma eval_mut_args_nf l : Forall mut_ok l -> forall c lg,
+  functions_never_not_found c -> Forall targets_are_identifiers l ->
+  same_funs c (snd (fst (eval_mut_args O l c lg))) /\
+  forall e, fst (fst (eval_mut_args O l c lg)) = Err e -> nf_post var_in (fun Q => exists k, In k l /\ Q k) c e.
+Proof.
+  induction 1 as [|k l Hk Hl IH]; intros c lg Hfun Ht.
+  - cbn [eval_mut_args fst snd]. split; [apply same_funs_refl|discriminate].
+  - inversion Ht as [|k' l' Htk Htl]; subst k' l'.
+    cbn [eval_mut_args].
+    destruct (Hk c lg Hfun Htk) as [Hs1 Hp1].
+    destruct (eval_mut O k c lg) as [[[v|e1|s] c1] lg1]; cbn [fst snd] in *.
+    + assert (Hfun1 : functions_never_not_found c1) by (eapply same_funs_never; eassumption).
+      destruct (IH c1 lg1 Hfun1 Htl) as [Hs2 Hp2].
+      destruct (eval_mut_args O l c1 lg1) as [[[vs|e2|s2] c2] lg2]; cbn [fst snd] in *.
+      * split; [eapply same_funs_trans; eassumption|discriminate].
+      * split; [eapply same_funs_trans; eassumption|].
+        intros e He. injection He as <-. destruct (Hp2 e2 eq_refl) as [Hv Hf]. split.
+        -- intros x Hx. destruct (Hv x Hx) as [k0 [Hin HQ]]. exists k0. split; [right; exact Hin|exact HQ].
+        -- intros f Hx. destruct (Hf f Hx) as [[k0 [Hin HQ]] [Hl1 Hl2]]. split; [|split].
+           ++ exists k0. split; [right; exact Hin|exact HQ].
+           ++ rewrite <- Hl1. symmetry. apply same_funs_lookup, Hs1.
+           ++ rewrite <- (same_funs_disabled c c1 Hs1). exact Hl2.
+      * split; [eapply same_funs_trans; eassumption|discriminate].
+    + split; [exact Hs1|]. intros e He. injection He as <-. destruct (Hp1 e1 eq_refl) as [Hv Hf]. split.
+      * intros x Hx. exists k. split; [left; reflexivity|exact (Hv x Hx)].
+      * intros f Hx. destruct (Hf f Hx) as [HQ [Hl1 Hl2]]. split; [|split; assumption].
+        exists k. split; [left; reflexivity|exact HQ].
+    + split; [exact Hs1|discriminate].
+Qed.
+
+Lemma eval_mut_nf n : mut_ok n.
+Proof.
+  induction n as [o ch IH] using node_ind'. intros c lg Hfun Ht.
+  inversion Ht as [o' ch' Htgt Htch]; subst o' ch'.
+  rewrite eval_mut_unfold.
+  destruct (eval_mut_args_nf ch IH c lg Hfun Htch) as [Hs1 Hp1].
+  destruct (eval_mut_args O ch c lg) as [[[vs|e1|s] c1] lg1] eqn:Eargs; cbn [fst snd] in *.
+  - assert (Hfun1 : functions_never_not_found c1) by (eapply same_funs_never; eassumption).
+    split; [eapply same_funs_trans; [exact Hs1|apply op_eval_mut_same_funs]|].
+    intros e He.
+    assert (Hcases : nf_err e = true -> _) by (exact (op_eval_mut_nf o vs c1 lg1 Hfun1 e He)).
+    split.
+    + intros x ->. destruct (Hcases eq_refl) as [[y [-> Hy]]|[[f [_ [Hy _]]]|[Ha [y [rest [Hvs Hy]]]]]]; try discriminate Hy.
+      * injection Hy as <-. exists (Node (OVariableIdentifierRead x) ch). split; [left; reflexivity|reflexivity].
+      * injection Hy as <-. destruct (Htgt Ha) as [z [rest' ->]].
+        apply eval_mut_args_ok_head in Eargs. destruct Eargs as [vs' Evs]. rewrite Evs in Hvs. injection Hvs as <- _.
+        exists (Node (OVariableIdentifierWrite z) []). split; [|reflexivity].
+        apply (preorder_child o _ (Node (OVariableIdentifierWrite z) [])); left; reflexivity.
+    + intros f ->. destruct (Hcases eq_refl) as [[y [_ Hy]]|[[g [-> [Hy [Hl1 Hl2]]]]|[_ [y [rest [_ Hy]]]]]]; try discriminate Hy.
+      injection Hy as <-. split; [|split].
+      * exists (Node (OFunctionIdentifier f) ch). split; [left; reflexivity|reflexivity].
+      * rewrite <- Hl1. symmetry. apply same_funs_lookup, Hs1.
+      * rewrite <- (same_funs_disabled c c1 Hs1). exact Hl2.
+  - split; [exact Hs1|]. intros e He. injection He as <-. destruct (Hp1 e1 eq_refl) as [Hv Hf]. split.
+    + intros x Hx. destruct (Hv x Hx) as [k [Hin [d [Hd1 Hd2]]]]. exists d. split; [|exact Hd2].
+      eapply preorder_child; eassumption.
+    + intros f Hx. destruct (Hf f Hx) as [[k [Hin [d [Hd1 Hd2]]]] [Hl1 Hl2]]. split; [|split; assumption].
+      exists d. split; [|exact Hd2]. eapply preorder_child; eassumption.
+  - split; [exact Hs1|discriminate].
+Qed.
+
+End WithOracle.
+
+Section WithOracle.
+Variable O : std_oracle.
+
+(* ---- the read-only evaluator (no side condition on assignment targets: it never reads one) ---- *)
+
+Definition ro_ok (n : node) : Prop :=
+  forall c lg, functions_never_not_found c ->
+    forall e, fst (eval_ro O n c lg) = Err e -> nf_post O read_in (fun Q => Q n) c e.
+
+Lemma eval_ro_args_nf l : Forall ro_ok l -> forall c lg, functions_never_not_found c ->
+  forall e, fst (eval_ro_args O l c lg) = Err e -> nf_post O read_in (fun Q => exists k, In k l /\ Q k) c e.
+Proof.
+  induction 1 as [|k l Hk Hl IH]; intros c lg Hfun e.
+  - cbn [eval_ro_args fst]. discriminate.
+  - cbn [eval_ro_args].
+    pose proof (Hk c lg Hfun) as Hp1.
+    destruct (eval_ro O k c lg) as [[v|e1|s] lg1]; cbn [fst] in *.
+    + pose proof (IH c lg1 Hfun) as Hp2.
+      destruct (eval_ro_args O l c lg1) as [[vs|e2|s2] lg2]; cbn [fst] in *; try discriminate.
+      intros He. injection He as <-. destruct (Hp2 e2 eq_refl) as [Hv Hf]. split.
+      * intros x Hx. destruct (Hv x Hx) as [k0 [Hin HQ]]. exists k0. split; [right; exact Hin|exact HQ].
+      * intros f Hx. destruct (Hf f Hx) as [[k0 [Hin HQ]] Hl12]. split; [|exact Hl12].
+        exists k0. split; [right; exact Hin|exact HQ].
+    + intros He. injection He as <-. destruct (Hp1 e1 eq_refl) as [Hv Hf]. split.
+      * intros x Hx. exists k. split; [left; reflexivity|exact (Hv x Hx)].
+      * intros f Hx. destruct (Hf f Hx) as [HQ Hl12]. split; [|exact Hl12].
+        exists k. split; [left; reflexivity|exact HQ].
+    + discriminate.
+Qed.
+
+Lemma eval_ro_nf n : ro_ok n.
+Proof.
+  induction n as [o ch IH] using node_ind'. intros c lg Hfun.
+  rewrite eval_ro_unfold.
+  pose proof (eval_ro_args_nf ch IH c lg Hfun) as Hp1.
+  destruct (eval_ro_args O ch c lg) as [[vs|e1|s] lg1]; cbn [fst] in *.
+  - intros e He.
+    assert (Hcases : nf_err e = true -> _) by (exact (op_eval_nf O o vs c lg1 Hfun e He)).
+    split.
+    + intros x ->. destruct (Hcases eq_refl) as [[y [-> Hy]]|[f [_ [Hy _]]]]; try discriminate Hy.
+      injection Hy as <-. exists (Node (OVariableIdentifierRead x) ch). split; [left; reflexivity|reflexivity].
+    + intros f ->. destruct (Hcases eq_refl) as [[y [_ Hy]]|[g [-> [Hy Hl12]]]]; try discriminate Hy.
+      injection Hy as <-. split; [|exact Hl12].
+      exists (Node (OFunctionIdentifier f) ch). split; [left; reflexivity|reflexivity].
+  - intros e He. injection He as <-. destruct (Hp1 e1 eq_refl) as [Hv Hf]. split.
+    + intros x Hx. destruct (Hv x Hx) as [k [Hin [d [Hd1 Hd2]]]]. exists d. split; [|exact Hd2].
+      eapply preorder_child; eassumption.
+    + intros f Hx. destruct (Hf f Hx) as [[k [Hin [d [Hd1 Hd2]]]] Hl12]. split; [|exact Hl12].
+      exists d. split; [|exact Hd2]. eapply preorder_child; eassumption.
+  - discriminate.
+Qed.
+
+(* ---- in terms of the iterators ---- *)
+
+Lemma in_filter_map {A B} (f : A -> option B) l y :
+  In y (filter_map f l) <-> exists d, In d l /\ f d = Some y.
+Proof.
+  induction l as [|a l IH]; cbn [filter_map].
+  - split; [intros []|intros [d [[] _]]].
+  - destruct (f a) as [b|] eqn:E.
+    + cbn [In]. rewrite IH. split.
+      * intros [->|[d [H1 H2]]]; [exists a; split; [left; reflexivity|exact E]|exists d; split; [right; exact H1|exact H2]].
+      * intros [d [[->|H1] H2]]; [left; congruence|right; exists d; split; assumption].
+    + rewrite IH. split.
+      * intros [d [H1 H2]]. exists d. split; [right; exact H1|exact H2].
+      * intros [d [[->|H1] H2]]; [congruence|exists d; split; assumption].
+Qed.
+
+Lemma var_in_iter x n : ident_var (nop n) = None -> var_in x n ->
+  exists l, iter_variable_identifiers n = Ok l /\ In x l.
+Proof.
+  intros Hroot [d [[<-|Hd] Hx]]; [congruence|].
+  eexists. split; [apply iter_with_spec|]. apply in_filter_map. exists d. split; assumption.
+Qed.
+
+Lemma read_in_iter x n : ident_read (nop n) = None -> read_in x n ->
+  exists l, iter_read_variable_identifiers n = Ok l /\ In x l.
+Proof.
+  intros Hroot [d [[<-|Hd] Hx]]; [congruence|].
+  eexists. split; [apply iter_with_spec|]. apply in_filter_map. exists d. split; assumption.
+Qed.
+
+Lemma fn_in_iter f n : ident_fn (nop n) = None -> fn_in f n ->
+  exists l, iter_function_identifiers n = Ok l /\ In f l.
+Proof.
+  intros Hroot [d [[<-|Hd] Hx]]; [congruence|].
+  eexists. split; [apply iter_with_spec|]. apply in_filter_map. exists d. split; assumption.
+Qed.
+
+(* general form: the root operator counted too *)
+Lemma not_found_mut_incl n c lg : functions_never_not_found c -> targets_are_identifiers n ->
+  (forall x, fst (fst (eval_mut O n c lg)) = Err (EVariableIdentifierNotFound x) ->
+     In x (filter_map (fun d => ident_var (nop d)) (preorder n))) /\
+  (forall f, fst (fst (eval_mut O n c lg)) = Err (EFunctionIdentifierNotFound f) ->
+     In f (filter_map (fun d => ident_fn (nop d)) (preorder n)) /\
+     lookup_function c f = None /\
+     (are_builtin_functions_disabled c = true \/ builtin_function O f = None)).
+Proof.
+  intros Hfun Ht. destruct (eval_mut_nf O n c lg Hfun Ht) as [_ Hp]. split.
+  - intros x He. destruct (Hp _ He) as [Hv _]. apply in_filter_map. exact (Hv x eq_refl).
+  - intros f He. destruct (Hp _ He) as [_ Hf]. destruct (Hf f eq_refl) as [H1 H2]. split; [|exact H2].
+    apply in_filter_map. exact H1.
+Qed.
+
+Lemma not_found_ro_incl n c lg : functions_never_not_found c ->
+  (forall x, fst (eval_ro O n c lg) = Err (EVariableIdentifierNotFound x) ->
+     In x (filter_map (fun d => ident_read (nop d)) (preorder n))) /\
+  (forall f, fst (eval_ro O n c lg) = Err (EFunctionIdentifierNotFound f) ->
+     In f (filter_map (fun d => ident_fn (nop d)) (preorder n)) /\
+     lookup_function c f = None /\
+     (are_builtin_functions_disabled c = true \/ builtin_function O f = None)).
+Proof.
+  intros Hfun. split.
+  - intros x He. destruct (eval_ro_nf n c lg Hfun _ He) as [Hv _]. apply in_filter_map. exact (Hv x eq_refl).
+  - intros f He. destruct (eval_ro_nf n c lg Hfun _ He) as [_ Hf]. destruct (Hf f eq_refl) as [H1 H2].
+    split; [|exact H2]. apply in_filter_map. exact H1.
+Qed.
+
+Lemma not_found_var_mut n c lg x : functions_never_not_found c -> targets_are_identifiers n ->
+  ident_any (nop n) = None ->
+  fst (fst (eval_mut O n c lg)) = Err (EVariableIdentifierNotFound x) ->
+  exists l, iter_variable_identifiers n = Ok l /\ In x l.
+Proof.
+  intros Hfun Ht Hroot He. destruct (eval_mut_nf O n c lg Hfun Ht) as [_ Hp].
+  destruct (Hp _ He) as [Hv _]. apply var_in_iter; [|exact (Hv x eq_refl)].
+  destruct (nop n); try reflexivity; discriminate.
+Qed.
+
+Lemma not_found_fn_mut n c lg f : functions_never_not_found c -> targets_are_identifiers n ->
+  ident_any (nop n) = None ->
+  fst (fst (eval_mut O n c lg)) = Err (EFunctionIdentifierNotFound f) ->
+  (exists l, iter_function_identifiers n = Ok l /\ In f l) /\
+  lookup_function c f = None /\
+  (are_builtin_functions_disabled c = true \/ builtin_function O f = None).
+Proof.
+  intros Hfun Ht Hroot He. destruct (eval_mut_nf O n c lg Hfun Ht) as [_ Hp].
+  destruct (Hp _ He) as [_ Hf]. destruct (Hf f eq_refl) as [H1 H2]. split; [|exact H2].
+  apply fn_in_iter; [|exact H1]. destruct (nop n); try reflexivity; discriminate.
+Qed.
+
+Lemma not_found_var_ro n c lg x : functions_never_not_found c ->
+  ident_any (nop n) = None ->
+  fst (eval_ro O n c lg) = Err (EVariableIdentifierNotFound x) ->
+  exists l, iter_read_variable_identifiers n = Ok l /\ In x l.
+Proof.
+  intros Hfun Hroot He. destruct (eval_ro_nf n c lg Hfun _ He) as [Hv _].
+  apply read_in_iter; [|exact (Hv x eq_refl)]. destruct (nop n); try reflexivity; discriminate.
+Qed.
+
+Lemma not_found_fn_ro n c lg f : functions_never_not_found c ->
+  ident_any (nop n) = None ->
+  fst (eval_ro O n c lg) = Err (EFunctionIdentifierNotFound f) ->
+  (exists l, iter_function_identifiers n = Ok l /\ In f l) /\
+  lookup_function c f = None /\
+  (are_builtin_functions_disabled c = true \/ builtin_function O f = None).
+Proof.
+  intros Hfun Hroot He. destruct (eval_ro_nf n c lg Hfun _ He) as [_ Hf].
+  destruct (Hf f eq_refl) as [H1 H2]. split; [|exact H2].
+  apply fn_in_iter; [|exact H1]. destruct (nop n); try reflexivity; discriminate.
+Qed.
+
+End WithOracle.
+
+(* ------------------------------------------------------------------------------------------ *)
+(* C14_rename                                                                                  *)
+(* ------------------------------------------------------------------------------------------ *)
+
+Lemma c14_str_eqb_eq x y : str_eqb x y = true <-> x = y.
+Proof.
+  revert y; induction x as [|a x IH]; intros [|b y]; cbn [str_eqb]; try (split; [discriminate|discriminate]).
+  - split; reflexivity.
+  - rewrite andb_true_iff, N.eqb_eq, IH. split; [intros [-> ->]; reflexivity|intros H; injection H; auto].
+Qed.
+
+Lemma str_eqb_inj r x y : injective r -> str_eqb (r x) (r y) = str_eqb x y.
+Proof.
+  intros Hr. destruct (str_eqb x y) eqn:E.
+  - apply c14_str_eqb_eq in E. subst. apply c14_str_eqb_eq. reflexivity.
+  - destruct (str_eqb (r x) (r y)) eqn:E2; [|reflexivity].
+    apply c14_str_eqb_eq, Hr in E2. subst. rewrite (proj2 (c14_str_eqb_eq y y) eq_refl) in E. discriminate.
+Qed.
+
+Definition ren_vars (r : str -> str) (l : list (str * value)) : list (str * value) :=
+  map (fun kv => (r (fst kv), snd kv)) l.
+
+Lemma assoc_ren r x l : injective r -> assoc (r x) (ren_vars r l) = assoc x l.
+Proof.
+  intros Hr. induction l as [|[k v] l IH]; [reflexivity|].
+  cbn [ren_vars map assoc fst snd]. rewrite (str_eqb_inj r x k Hr). fold (ren_vars r l). rewrite IH. reflexivity.
+Qed.
+
+Lemma assoc_set_ren r x v l : injective r -> assoc_set (r x) v (ren_vars r l) = ren_vars r (assoc_set x v l).
+Proof.
+  intros Hr. induction l as [|[k w] l IH]; [reflexivity|].
+  cbn [ren_vars map assoc_set fst snd]. rewrite (str_eqb_inj r x k Hr).
+  destruct (str_eqb x k); [reflexivity|]. cbn [map fst snd]. fold (ren_vars r l). rewrite IH. reflexivity.
+Qed.
+
+Definition omap {A B} (f : A -> B) (o : outcome A) : outcome B :=
+  match o with Ok a => Ok (f a) | Err e => Err e | Panic s => Panic s end.
+
+(* context results: the context renamed, the error renamed *)
+Definition ren_octx (r : str -> str) (o : outcome ctx) : outcome ctx :=
+  match o with Ok c => Ok (rename_ctx r c) | Err e => Err (rename_error r e) | Panic s => Panic s end.
+
+(* rename_result at any payload type *)
+Definition ren_res {A} (r : str -> str) (res : outcome A * ctx * log) : outcome A * ctx * log :=
+  let '(o, c, lg) := res in (rename_outcome r o, rename_ctx r c, lg).
+Definition ren_res_ro {A} (r : str -> str) (res : outcome A * log) : outcome A * log :=
+  let '(o, lg) := res in (rename_outcome r o, lg).
+
+Lemma get_value_ren r c x : injective r -> get_value (rename_ctx r c) (r x) = get_value c x.
+Proof.
+  intros Hr. unfold get_value, has_store, rename_ctx. cbn [c_kind c_vars].
+  destruct (c_kind c); try reflexivity; apply (assoc_ren r x (c_vars c) Hr).
+Qed.
+
+Lemma set_value_ren r c x v : injective r ->
+  set_value (rename_ctx r c) (r x) v = omap (rename_ctx r) (set_value c x v).
+Proof.
+  intros Hr. unfold set_value.
+  change (c_kind (rename_ctx r c)) with (c_kind c).
+  change (c_vars (rename_ctx r c)) with (ren_vars r (c_vars c)).
+  change (c_funs (rename_ctx r c)) with (c_funs c).
+  change (c_off (rename_ctx r c)) with (c_off c).
+  rewrite (assoc_ren r x (c_vars c) Hr), (assoc_set_ren r x v (c_vars c) Hr).
+  destruct (c_kind c); try reflexivity.
+  destruct (assoc x (c_vars c)) as [ex|].
+  - destruct (vtype_eqb (type_of ex) (type_of v)); reflexivity.
+  - reflexivity.
+Qed.
+
+Lemma rename_error_clean r e : nf_err e = false -> rename_error r e = e.
+Proof. destruct e; try reflexivity; discriminate. Qed.
+
+Lemma rename_outcome_clean {A} r (o : outcome A) : clean o -> rename_outcome r o = o.
+Proof. destruct o as [a|e|s]; try reflexivity. intros H. cbn [rename_outcome]. rewrite rename_error_clean; [reflexivity|]. apply H. reflexivity. Qed.
+
+Lemma omap_ren_octx r (o : outcome ctx) : clean o -> omap (rename_ctx r) o = ren_octx r o.
+Proof. destruct o as [a|e|s]; try reflexivity. intros H. cbn [omap ren_octx]. rewrite rename_error_clean; [reflexivity|]. apply H. reflexivity. Qed.
+
+Lemma same_funs_never_vnf c c' : same_funs c c' -> functions_never_variable_not_found c -> functions_never_variable_not_found c'.
+Proof. intros (H1 & H2 & H3) H f g a x Hin. rewrite <- H2 in Hin. exact (H f g a x Hin). Qed.
+
+Lemma same_funs_rename r c : same_funs c (rename_ctx r c).
+Proof. unfold same_funs, rename_ctx. cbn [c_kind c_funs c_off]. auto. Qed.
+
+Section WithOracle.
+Variable O : std_oracle.
+
+(* ---- evaluation never changes kind, functions, flag (no hypotheses) ---- *)
+
+Lemma eval_mut_args_same_funs l :
+  Forall (fun n => forall c lg, same_funs c (snd (fst (eval_mut O n c lg)))) l ->
+  forall c lg, same_funs c (snd (fst (eval_mut_args O l c lg))).
+Proof.
+  induction 1 as [|k l Hk Hl IH]; intros c lg; cbn [eval_mut_args]; [apply same_funs_refl|].
+  specialize (Hk c lg). destruct (eval_mut O k c lg) as [[[v|e|s] c1] lg1]; cbn [fst snd] in *; try exact Hk.
+  specialize (IH c1 lg1). destruct (eval_mut_args O l c1 lg1) as [[[vs|e|s] c2] lg2]; cbn [fst snd] in *;
+    eapply same_funs_trans; eassumption.
+Qed.
+
+Lemma eval_mut_same_funs n : forall c lg, same_funs c (snd (fst (eval_mut O n c lg))).
+Proof.
+  induction n as [o ch IH] using node_ind'. intros c lg. rewrite eval_mut_unfold.
+  pose proof (eval_mut_args_same_funs ch IH c lg) as H.
+  destruct (eval_mut_args O ch c lg) as [[[vs|e|s] c1] lg1]; cbn [fst snd] in *; try exact H.
+  eapply same_funs_trans; [exact H|apply op_eval_mut_same_funs].
+Qed.
+
+(* ---- operators ---- *)
+
+Lemma call_function_ren r c lg f a : call_function O (rename_ctx r c) lg f a = call_function O c lg f a.
+Proof. reflexivity. Qed.
+
+Lemma call_function_no_vnf c lg f a x : functions_never_variable_not_found c ->
+  fst (call_function O c lg f a) <> Err (EVariableIdentifierNotFound x).
+Proof.
+  intros Hfun. unfold call_function.
+  destruct (lookup_function c f) as [g|] eqn:El.
+  - assert (Hg : forall y, g a <> Err (EVariableIdentifierNotFound y)).
+    { intros y. unfold lookup_function in El. destruct (has_store c); [|discriminate].
+      apply assoc_in in El. destruct El as [k Hk]. exact (Hfun k g a y Hk). }
+    destruct (g a) as [v|e|s] eqn:Eg; cbn [fst]; try discriminate.
+    destruct e; cbn [fst]; try discriminate.
+    + exfalso. exact (Hg s eq_refl).
+    + destruct (are_builtin_functions_disabled c); cbn [fst]; [discriminate|].
+      destruct (builtin_function O f) as [b|] eqn:Eb; cbn [fst]; [|discriminate].
+      apply clean_not_vnf. exact (clean_builtin O f b a Eb).
+  - destruct (are_builtin_functions_disabled c); cbn [fst]; [discriminate|].
+    destruct (builtin_function O f) as [b|] eqn:Eb; cbn [fst]; [|discriminate].
+    apply clean_not_vnf. exact (clean_builtin O f b a Eb).
+Qed.
+
+Lemma rename_outcome_no_vnf {A} r (o : outcome A) :
+  (forall x, o <> Err (EVariableIdentifierNotFound x)) -> rename_outcome r o = o.
+Proof.
+  destruct o as [a|e|s]; try reflexivity. intros H. destruct e; try reflexivity. exfalso. exact (H s eq_refl).
+Qed.
+
+(* Operator::eval on every operator that is neither an assignment nor an assignment target *)
+Lemma op_eval_ren r o vs c lg : injective r -> functions_never_variable_not_found c ->
+  (forall x, o <> OVariableIdentifierWrite x) ->
+  op_eval O (rename_op r o) vs (rename_ctx r c) lg = ren_res_ro r (op_eval O o vs c lg).
+Proof.
+  intros Hr Hfun Hw.
+  destruct (is_ctx_free o) eqn:Ef.
+  - assert (Ho : rename_op r o = o).
+    { destruct o; try reflexivity; try discriminate Ef. exfalso. exact (Hw s eq_refl). }
+    rewrite Ho, (op_eval_ctx_free O o vs (rename_ctx r c) c lg Ef).
+    pose proof (op_eval_clean O o vs c lg Ef) as Hc.
+    destruct (op_eval O o vs c lg) as [res lg']. cbn [ren_res_ro fst] in *.
+    rewrite rename_outcome_clean by exact Hc. reflexivity.
+  - destruct o; try discriminate Ef; cbn [rename_op op_eval].
+    + destruct (expect_operator_argument_amount (nargs vs) 0) as [u|e|p] eqn:Ea; cbn [bind ren_res_ro rename_outcome].
+      * rewrite (get_value_ren r c s Hr). destruct (get_value c s); reflexivity.
+      * rewrite rename_error_clean; [reflexivity|]. exact (clean_expect_amount _ _ _ Ea).
+      * reflexivity.
+    + destruct (expect_operator_argument_amount (nargs vs) 1) as [u|e|p] eqn:Ea; cbn [ren_res_ro rename_outcome].
+      * destruct (arg vs 0 76) as [a|e|p] eqn:Eg; cbn [ren_res_ro rename_outcome].
+        -- rewrite call_function_ren.
+           pose proof (fun x => call_function_no_vnf c lg s a x Hfun) as Hn.
+           destruct (call_function O c lg s a) as [res lg']. cbn [ren_res_ro fst] in *.
+           rewrite rename_outcome_no_vnf by exact Hn. reflexivity.
+        -- rewrite rename_error_clean; [reflexivity|]. exact (clean_arg _ _ _ _ Eg).
+        -- reflexivity.
+      * rewrite rename_error_clean; [reflexivity|]. exact (clean_expect_amount _ _ _ Ea).
+      * reflexivity.
+Qed.
+
+Lemma op_eval_mut_ren_other r o vs c lg : injective r -> functions_never_variable_not_found c ->
+  is_assignment_op o = false -> (forall x, o <> OVariableIdentifierWrite x) ->
+  op_eval_mut O (rename_op r o) vs (rename_ctx r c) lg = ren_res r (op_eval_mut O o vs c lg).
+Proof.
+  intros Hr Hfun Ha Hw.
+  assert (Ha' : is_assignment_op (rename_op r o) = false) by (destruct o; try discriminate Ha; reflexivity).
+  rewrite (op_eval_mut_nonassign O _ vs _ lg Ha'), (op_eval_mut_nonassign O o vs c lg Ha).
+  rewrite (op_eval_ren r o vs c lg Hr Hfun Hw).
+  destruct (op_eval O o vs c lg) as [res lg']. reflexivity.
+Qed.
+
+Lemma assign_chain_ren r x vs c : injective r ->
+  assign_chain (VString (r x) :: vs) (rename_ctx r c) = ren_octx r (assign_chain (VString x :: vs) c).
+Proof.
+  intros Hr. unfold assign_chain.
+  change (nargs (VString (r x) :: vs)) with (nargs (VString x :: vs)).
+  destruct (expect_operator_argument_amount (nargs (VString x :: vs)) 2) as [u|e|p] eqn:Ea; cbn [bind ren_octx].
+  - cbn [arg nth_opt as_string bind].
+    change (arg (VString (r x) :: vs) 1 78) with (arg (VString x :: vs) 1 78).
+    destruct (arg (VString x :: vs) 1 78) as [v|e|p] eqn:Eg; cbn [bind ren_octx].
+    + rewrite (set_value_ren r c x v Hr). apply omap_ren_octx, clean_set_value.
+    + rewrite rename_error_clean; [reflexivity|]. exact (clean_arg _ _ _ _ Eg).
+    + reflexivity.
+  - rewrite rename_error_clean; [reflexivity|]. exact (clean_expect_amount _ _ _ Ea).
+  - reflexivity.
+Qed.
+
+Lemma opassign_chain_ren r o x vs c lg : injective r ->
+  opassign_chain O o (VString (r x) :: vs) (rename_ctx r c) lg =
+  ren_octx r (opassign_chain O o (VString x :: vs) c lg).
+Proof.
+  intros Hr. unfold opassign_chain.
+  change (nargs (VString (r x) :: vs)) with (nargs (VString x :: vs)).
+  destruct (expect_operator_argument_amount (nargs (VString x :: vs)) 2) as [u|e|p] eqn:Ea; cbn [bind ren_octx].
+  2:{ rewrite rename_error_clean; [reflexivity|]. exact (clean_expect_amount _ _ _ Ea). }
+  2:{ reflexivity. }
+  cbn [arg nth_opt as_string bind].
+  cbn [op_eval fst nargs length N.of_nat expect_operator_argument_amount N.eqb bind].
+  rewrite (get_value_ren r c x Hr).
+  destruct (get_value c x) as [left|]; cbn [bind ren_octx rename_error]; [|reflexivity].
+  change (arg (VString (r x) :: vs) 1 80) with (arg (VString x :: vs) 1 80).
+  destruct (arg (VString x :: vs) 1 80) as [right|e|p] eqn:Eg; cbn [bind ren_octx].
+  2:{ rewrite rename_error_clean; [reflexivity|]. exact (clean_arg _ _ _ _ Eg). }
+  2:{ reflexivity. }
+  destruct (assign_base o) as [b|] eqn:Eb; cbn [bind ren_octx]; [|reflexivity].
+  pose proof (assign_base_ctx_free o b Eb) as Hb.
+  rewrite (op_eval_ctx_free O b [left; right] (rename_ctx r c) c lg Hb).
+  pose proof (op_eval_clean O b [left; right] c lg Hb) as Hc.
+  destruct (fst (op_eval O b [left; right] c lg)) as [res|e|p]; cbn [bind ren_octx].
+  - rewrite (set_value_ren r c x res Hr). apply omap_ren_octx, clean_set_value.
+  - rewrite rename_error_clean; [reflexivity|]. exact (Hc e eq_refl).
+  - reflexivity.
+Qed.
+
+Lemma finish_ren r c lg R : finish (rename_ctx r c) lg (ren_octx r R) = ren_res r (finish c lg R).
+Proof. destruct R; reflexivity. Qed.
+
+Lemma op_eval_mut_ren_assign r o x vs c lg : injective r -> is_assignment_op o = true ->
+  op_eval_mut O o (VString (r x) :: vs) (rename_ctx r c) lg =
+  ren_res r (op_eval_mut O o (VString x :: vs) c lg).
+Proof.
+  intros Hr Ha. rewrite !(op_eval_mut_assign O o _ _ lg Ha), <- finish_ren. f_equal.
+  destruct o; try discriminate Ha; first [apply (assign_chain_ren r x vs c Hr) | apply (opassign_chain_ren r _ x vs c lg Hr)].
+Qed.
+
+(* ---- trees ---- *)
+
+Lemma wat_tai n : writes_are_targets n -> targets_are_identifiers n.
+Proof.
+  induction n as [o ch IH] using node_ind'. intros H.
+  inversion H as [o' x rest Ha Hrest|o' ch' Ha Hw Hch]; subst.
+  - constructor; [intros _; eauto|].
+    inversion IH as [|k l Hk Hl]; subst. constructor.
+    + constructor; [discriminate|constructor].
+    + rewrite Forall_forall in *. intros k Hin. apply Hl; [exact Hin|apply Hrest, Hin].
+  - constructor; [rewrite Ha; discriminate|].
+    rewrite Forall_forall in *. intros k Hin. apply IH; [exact Hin|apply Hch, Hin].
+Qed.
+
+Definition mut_ren (r : str -> str) (n : node) : Prop :=
+  forall c lg, functions_never_variable_not_found c -> writes_are_targets n ->
+    eval_mut O (rename_tree r n) (rename_ctx r c) lg = ren_res r (eval_mut O n c lg).
+
+Lemma eval_mut_args_ren r l : Forall (mut_ren r) l -> forall c lg,
+  functions_never_variable_not_found c -> Forall writes_are_targets l ->
+  eval_mut_args O (map (rename_tree r) l) (rename_ctx r c) lg = ren_res r (eval_mut_args O l c lg).
+Proof.
+  induction 1 as [|k l Hk Hl IH]; intros c lg Hfun Hw; [reflexivity|].
+  inversion Hw as [|k' l' Hwk Hwl]; subst k' l'.
+  cbn [map eval_mut_args]. rewrite (Hk c lg Hfun Hwk).
+  pose proof (eval_mut_same_funs k c lg) as Hs.
+  destruct (eval_mut O k c lg) as [[[v|e|s] c1] lg1]; cbn [ren_res rename_outcome fst snd] in *; try reflexivity.
+  rewrite (IH c1 lg1 (same_funs_never_vnf c c1 Hs Hfun) Hwl).
+  destruct (eval_mut_args O l c1 lg1) as [[[vs|e|s] c2] lg2]; reflexivity.
+Qed.
+
+Lemma eval_mut_ren r n : injective r -> mut_ren r n.
+Proof.
+  intros Hr. induction n as [o ch IH] using node_ind'. intros c lg Hfun Hw.
+  inversion Hw as [o' x rest Ha Hrest|o' ch' Ha Hnw Hch]; subst.
+  - (* an assignment: the target leaf, then the remaining children *)
+    inversion IH as [|k l _ IHrest]; subst.
+    assert (Ho : rename_op r o = o) by (destruct o; try discriminate Ha; reflexivity).
+    cbn [rename_tree map rename_op]. rewrite Ho, !eval_mut_unfold, !eval_mut_args_head_write.
+    rewrite (eval_mut_args_ren r rest IHrest c lg Hfun Hrest).
+    destruct (eval_mut_args O rest c lg) as [[[vs|e|s] c1] lg1]; cbn [ren_res rename_outcome]; try reflexivity.
+    apply (op_eval_mut_ren_assign r o x vs c1 lg1 Hr Ha).
+  - cbn [rename_tree]. rewrite !eval_mut_unfold.
+    rewrite (eval_mut_args_ren r ch IH c lg Hfun Hch).
+    pose proof (eval_mut_args_same_funs ch (proj2 (Forall_forall _ _) (fun k _ => eval_mut_same_funs k)) c lg) as Hs.
+    destruct (eval_mut_args O ch c lg) as [[[vs|e|s] c1] lg1]; cbn [ren_res rename_outcome fst snd] in *; try reflexivity.
+    apply (op_eval_mut_ren_other r o vs c1 lg1 Hr (same_funs_never_vnf c c1 Hs Hfun) Ha Hnw).
+Qed.
+
+(* the read-only evaluator *)
+Definition ro_ren (r : str -> str) (n : node) : Prop :=
+  forall c lg, functions_never_variable_not_found c -> writes_are_targets n ->
+    eval_ro O (rename_tree r n) (rename_ctx r c) lg = ren_res_ro r (eval_ro O n c lg).
+
+Lemma eval_ro_args_ren r l : Forall (ro_ren r) l -> forall c lg,
+  functions_never_variable_not_found c -> Forall writes_are_targets l ->
+  eval_ro_args O (map (rename_tree r) l) (rename_ctx r c) lg = ren_res_ro r (eval_ro_args O l c lg).
+Proof.
+  induction 1 as [|k l Hk Hl IH]; intros c lg Hfun Hw; [reflexivity|].
+  inversion Hw as [|k' l' Hwk Hwl]; subst k' l'.
+  cbn [map eval_ro_args]. rewrite (Hk c lg Hfun Hwk).
+  destruct (eval_ro O k c lg) as [[v|e|s] lg1]; cbn [ren_res_ro rename_outcome]; try reflexivity.
+  rewrite (IH c lg1 Hfun Hwl).
+  destruct (eval_ro_args O l c lg1) as [[vs|e|s] lg2]; reflexivity.
+Qed.
+
+Lemma op_eval_assign o vs c lg : is_assignment_op o = true ->
+  op_eval O o vs c lg = (Err EContextNotMutable, lg).
+Proof. destruct o; try discriminate; reflexivity. Qed.
+
+Lemma eval_ro_ren r n : injective r -> ro_ren r n.
+Proof.
+  intros Hr. induction n as [o ch IH] using node_ind'. intros c lg Hfun Hw.
+  inversion Hw as [o' x rest Ha Hrest|o' ch' Ha Hnw Hch]; subst.
+  - inversion IH as [|k l _ IHrest]; subst.
+    assert (Ho : rename_op r o = o) by (destruct o; try discriminate Ha; reflexivity).
+    cbn [rename_tree map rename_op]. rewrite Ho, !eval_ro_unfold. cbn [eval_ro_args]. rewrite !leaf_write_eval_ro.
+    rewrite (eval_ro_args_ren r rest IHrest c lg Hfun Hrest).
+    destruct (eval_ro_args O rest c lg) as [[vs|e|s] lg1]; cbn [ren_res_ro rename_outcome]; try reflexivity.
+    rewrite !(op_eval_assign o _ _ lg1 Ha). reflexivity.
+  - cbn [rename_tree]. rewrite !eval_ro_unfold.
+    rewrite (eval_ro_args_ren r ch IH c lg Hfun Hch).
+    destruct (eval_ro_args O ch c lg) as [[vs|e|s] lg1]; cbn [ren_res_ro rename_outcome]; try reflexivity.
+    apply (op_eval_ren r o vs c lg1 Hr Hfun Hnw).
+Qed.
+
+End WithOracle.
+
+(* ------------------------------------------------------------------------------------------ *)
+(* final forms                                                                                 *)
+(* ------------------------------------------------------------------------------------------ *)
+
+Lemma never_not_found_vnf c : functions_never_not_found c -> functions_never_variable_not_found c.
+Proof. intros H f g a x Hin E. specialize (H f g a Hin). rewrite E in H. discriminate. Qed.
+
+Section WithOracle.
+Variable O : std_oracle.
+
+Lemma rename_mut r n c lg : injective r -> functions_never_variable_not_found c -> writes_are_targets n ->
+  eval_mut O (rename_tree r n) (rename_ctx r c) lg = rename_result r (eval_mut O n c lg).
+Proof. intros Hr Hfun Hw. exact (eval_mut_ren O r n Hr c lg Hfun Hw). Qed.
+
+Lemma rename_ro r n c lg : injective r -> functions_never_variable_not_found c -> writes_are_targets n ->
+  eval_ro O (rename_tree r n) (rename_ctx r c) lg = rename_result_ro r (eval_ro O n c lg).
+Proof. intros Hr Hfun Hw. exact (eval_ro_ren O r n Hr c lg Hfun Hw). Qed.
+
+(* the same through the mutable iterator, for a tree whose root operator is not a variable (parser output) *)
+Lemma rename_mut_iter r n c lg : injective r -> functions_never_variable_not_found c -> writes_are_targets n ->
+  ident_var (nop n) = None ->
+  eval_mut O (rename_with ident_var r n) (rename_ctx r c) lg = rename_result r (eval_mut O n c lg).
+Proof. intros Hr Hfun Hw Hroot. rewrite (rename_with_var_tree r n Hroot). apply rename_mut; assumption. Qed.
+
+Lemma rename_ro_iter r n c lg : injective r -> functions_never_variable_not_found c -> writes_are_targets n ->
+  ident_var (nop n) = None ->
+  eval_ro O (rename_with ident_var r n) (rename_ctx r c) lg = rename_result_ro r (eval_ro O n c lg).
+Proof. intros Hr Hfun Hw Hroot. rewrite (rename_with_var_tree r n Hroot). apply rename_ro; assumption. Qed.
+
+End WithOracle.
+
+(* ---- the executable checkers ---- *)
+
+Lemma is_write_leaf_spec t : is_write_leaf t = true -> exists x, t = Node (OVariableIdentifierWrite x) [].
+Proof. destruct t as [o [|k l]]; destruct o; try discriminate. eauto. Qed.
+
+Lemma targets_are_identifiersb_sound n : targets_are_identifiersb n = true -> targets_are_identifiers n.
+Proof.
+  induction n as [o ch IH] using node_ind'. cbn [targets_are_identifiersb]. intros H.
+  apply andb_prop in H. destruct H as [H1 H2]. constructor.
+  - intros Ha. rewrite Ha in H1. destruct ch as [|t rest]; [discriminate|].
+    apply is_write_leaf_spec in H1. destruct H1 as [x ->]. eauto.
+  - rewrite forallb_forall in H2. rewrite Forall_forall in *. intros k Hin. apply IH; [exact Hin|apply H2, Hin].
+Qed.
+
+Lemma writes_are_targetsb_sound n : writes_are_targetsb n = true -> writes_are_targets n.
+Proof.
+  induction n as [o ch IH] using node_ind'. cbn [writes_are_targetsb]. intros H.
+  destruct (is_assignment_op o) eqn:Ea.
+  - destruct ch as [|t rest]; [discriminate|]. apply andb_prop in H. destruct H as [H1 H2].
+    apply is_write_leaf_spec in H1. destruct H1 as [x ->]. apply wat_assign; [exact Ea|].
+    inversion IH as [|k l _ IHrest]; subst.
+    rewrite forallb_forall in H2. rewrite Forall_forall in *. intros k Hin. apply IHrest; [exact Hin|apply H2, Hin].
+  - apply wat_other; [exact Ea| |].
+    + intros x ->. discriminate.
+    + assert (H2 : forallb writes_are_targetsb ch = true) by (destruct o; try exact H; discriminate).
+      rewrite forallb_forall in H2. rewrite Forall_forall in *. intros k Hin. apply IH; [exact Hin|apply H2, Hin].
+Qed.
+
+(* ---- statements as they appear in Props/C14.v ---- *)
+
+Lemma preorder_all n :
+  iter_all n = Ok (preorder_descendants n) /\ is_panic (iter_all n) = false /\
+  length (preorder_descendants n) = pred (node_size n).
+Proof.
+  split; [apply iter_all_preorder|]. split; [apply iter_all_no_panic|].
+  pose proof (preorder_length n) as H. unfold preorder in H. cbn [length] in H. lia.
+Qed.
+
+Lemma mut_same_all sel g n :
+  preorder_descendants (rename_with sel g n) =
+    map (map_all_ops (rewrite_ident sel g)) (preorder_descendants n) /\
+  map nop (preorder_descendants (rename_with sel g n)) =
+    map (fun d => rewrite_ident sel g (nop d)) (preorder_descendants n) /\
+  nop (rename_with sel g n) = nop n /\
+  same_shape n (rename_with sel g n) /\
+  length (preorder_descendants (rename_with sel g n)) = length (preorder_descendants n).
+Proof.
+  split; [apply rename_with_preorder|]. split; [apply rename_with_ops|]. split; [apply rename_with_root|].
+  split; [apply rename_with_shape|]. rewrite rename_with_preorder. apply map_length.
+Qed.
+
+Lemma mut_other_classes g n :
+  (forall l, iter_function_identifiers n = Ok l -> iter_function_identifiers (rename_with ident_var g n) = Ok l) /\
+  (forall l, iter_variable_identifiers n = Ok l -> iter_variable_identifiers (rename_with ident_fn g n) = Ok l) /\
+  (forall l, iter_write_variable_identifiers n = Ok l -> iter_write_variable_identifiers (rename_with ident_read g n) = Ok l) /\
+  (forall l, iter_read_variable_identifiers n = Ok l -> iter_read_variable_identifiers (rename_with ident_write g n) = Ok l).
+Proof.
+  repeat split; intros l H.
+  - apply rename_with_var_keeps_fn, H. - apply rename_with_fn_keeps_var, H.
+  - apply rename_with_read_keeps_write, H. - apply rename_with_write_keeps_read, H.
+Qed.
+
+Section WithOracle.
+Variable O : std_oracle.
+
+Lemma not_found_mut n c lg : functions_never_not_found c -> targets_are_identifiers n ->
+  ident_any (nop n) = None ->
+  (forall x, fst (fst (eval_mut O n c lg)) = Err (EVariableIdentifierNotFound x) ->
+     exists l, iter_variable_identifiers n = Ok l /\ In x l) /\
+  (forall f, fst (fst (eval_mut O n c lg)) = Err (EFunctionIdentifierNotFound f) ->
+     (exists l, iter_function_identifiers n = Ok l /\ In f l) /\
+     lookup_function c f = None /\
+     (are_builtin_functions_disabled c = true \/ builtin_function O f = None)).
+Proof.
+  intros Hfun Ht Hroot. split.
+  - intros x. apply not_found_var_mut; assumption.
+  - intros f. apply not_found_fn_mut; assumption.
+Qed.
+
+Lemma not_found_ro n c lg : functions_never_not_found c -> ident_any (nop n) = None ->
+  (forall x, fst (eval_ro O n c lg) = Err (EVariableIdentifierNotFound x) ->
+     exists l, iter_read_variable_identifiers n = Ok l /\ In x l) /\
+  (forall f, fst (eval_ro O n c lg) = Err (EFunctionIdentifierNotFound f) ->
+     (exists l, iter_function_identifiers n = Ok l /\ In f l) /\
+     lookup_function c f = None /\
+     (are_builtin_functions_disabled c = true \/ builtin_function O f = None)).
+Proof.
+  intros Hfun Hroot. split.
+  - intros x. apply not_found_var_ro; assumption.
+  - intros f. apply not_found_fn_ro; assumption.
+Qed.
+
+End WithOracle.
+
+Lemma builtins_never_not_found (O : std_oracle) (f : str) (b : value -> outcome value) (a : value) :
+  builtin_function O f = Some b -> is_not_found (b a) = false.
+Proof. intros H. apply clean_is_not_found. exact (clean_builtin O f b a H). Qed.
+
+Lemma side_conditions :
+  (forall n, writes_are_targets n -> targets_are_identifiers n) /\
+  (forall c, functions_never_not_found c -> functions_never_variable_not_found c) /\
+  (forall n, targets_are_identifiersb n = true -> targets_are_identifiers n) /\
+  (forall n, writes_are_targetsb n = true -> writes_are_targets n).
+Proof.
+  exact (conj wat_tai (conj never_not_found_vnf (conj targets_are_identifiersb_sound writes_are_targetsb_sound))).
+Qed.
+
+Require Import Model.Builder Spec.OpTable Spec.Grammar.
+
+(* ------------------------------------------------------------------------------------------ *)
+(* C14_source_order                                                                            *)
+(* ------------------------------------------------------------------------------------------ *)
+
+Definition c14_opt_all {A} (P : A -> Prop) (o : option A) : Prop := match o with None => True | Some a => P a end.
+
+Lemma c14_expr_ind (P : expr -> Prop) :
+  (forall l, P (Lit l)) -> (forall x, P (Var x)) ->
+  (forall o l r, P l -> P r -> P (Bin o l r)) ->
+  (forall u e, P e -> P (Pre u e)) ->
+  (forall a x e, P e -> P (Asg a x e)) ->
+  (forall f a, P a -> P (Call f a)) ->
+  (forall s, Forall (Forall (c14_opt_all P)) s -> P (Paren s)) ->
+  forall e, P e.
+Proof.
+  intros HLit HVar HBin HPre HAsg HCall HParen. fix IH 1. intros [l|x|o l r|u e|a x e|f a|s].
+  - apply HLit.
+  - apply HVar.
+  - apply HBin; apply IH.
+  - apply HPre; apply IH.
+  - apply HAsg; apply IH.
+  - apply HCall; apply IH.
+  - apply HParen.
+    induction s as [|t s IHs]; constructor; [|exact IHs].
+    induction t as [|el t IHt]; constructor; [|exact IHt].
+    destruct el as [e|]; [apply IH|exact I].
+Qed.
+
+(* the occurrences of an expression, read off the AST from left to right *)
+Definition elem_occ (eo : expr -> list occurrence) (el : option expr) : list occurrence :=
+  match el with None => [] | Some e => eo e end.
+
+Fixpoint expr_occurrences (e : expr) : list occurrence :=
+  match e with
+  | Lit _ => []
+  | Var x => [(CRead, x)]
+  | Bin _ l r => expr_occurrences l ++ expr_occurrences r
+  | Pre _ e1 => expr_occurrences e1
+  | Asg _ x e1 => (CWrite, x) :: expr_occurrences e1
+  | Call f a => (CFunction, f) :: expr_occurrences a
+  | Paren s => flat_map (flat_map (elem_occ expr_occurrences)) s
+  end.
+
+Definition seq_occurrences (s : seq) : list occurrence := flat_map (flat_map (elem_occ expr_occurrences)) s.
+
+(* ---- the tree side ---- *)
+
+Definition occ_forest (l : list node) : list occurrence :=
+  flat_map (fun d => occurrence_of (nop d)) (forest_pre l).
+
+Lemma occurrences_incl_eq n : occurrences_incl n = occurrence_of (nop n) ++ occ_forest (nch n).
+Proof. unfold occurrences_incl, preorder, occ_forest. cbn [flat_map]. rewrite preorder_descendants_eq. reflexivity. Qed.
+
+Lemma occurrences_eq n : occurrences n = occ_forest (nch n).
+Proof. unfold occurrences, occ_forest. rewrite preorder_descendants_eq. reflexivity. Qed.
+
+Lemma occ_forest_cons x l : occ_forest (x :: l) = occurrences_incl x ++ occ_forest l.
+Proof.
+  unfold occ_forest at 1. rewrite forest_pre_cons. cbn [flat_map]. rewrite flat_map_app, occurrences_incl_eq.
+  rewrite <- app_assoc. reflexivity.
+Qed.
+
+Lemma occ_forest_nil : occ_forest [] = [].
+Proof. reflexivity. Qed.
+
+Lemma occ_forest_app l1 l2 : occ_forest (l1 ++ l2) = occ_forest l1 ++ occ_forest l2.
+Proof. unfold occ_forest. rewrite forest_pre_app, flat_map_app. reflexivity. Qed.
+
+Definition tree_ok (e : expr) : Prop := occurrences_incl (tree_of e) = expr_occurrences e.
+
+Lemma elem_root_occ el : c14_opt_all tree_ok el ->
+  occurrences_incl (elem_root_with tree_of el) = elem_occ expr_occurrences el.
+Proof.
+  intros H. unfold elem_root_with. rewrite occurrences_incl_eq. cbn [nop nch occurrence_of app].
+  destruct el as [e|]; cbn [elem_occ]; [|reflexivity].
+  rewrite occ_forest_cons, occ_forest_nil, app_nil_r. exact H.
+Qed.
+
+Lemma elem_roots_occ t : Forall (c14_opt_all tree_ok) t ->
+  occ_forest (map (elem_root_with tree_of) t) = flat_map (elem_occ expr_occurrences) t.
+Proof.
+  induction 1 as [|el t Hel Ht IH]; [reflexivity|].
+  cbn [map flat_map]. rewrite occ_forest_cons, IH, (elem_root_occ el Hel). reflexivity.
+Qed.
+
+Lemma tuple_node_occ t : Forall (c14_opt_all tree_ok) t ->
+  occurrences_incl (Node OTuple (map (elem_root_with tree_of) t)) = flat_map (elem_occ expr_occurrences) t.
+Proof. intros H. rewrite occurrences_incl_eq. cbn [nop nch occurrence_of app]. apply elem_roots_occ, H. Qed.
+
+Lemma item_tree_occ t : Forall (c14_opt_all tree_ok) t ->
+  occurrences_incl (item_tree_with tree_of t) = flat_map (elem_occ expr_occurrences) t.
+Proof.
+  intros H. unfold item_tree_with. destruct t as [|el [|el2 t]]; try apply (tuple_node_occ _ H).
+  inversion H as [|? ? Hel _]; subst. cbn [flat_map]. rewrite app_nil_r. apply elem_root_occ, Hel.
+Qed.
+
+Lemma item_trees_occ s : Forall (Forall (c14_opt_all tree_ok)) s ->
+  occ_forest (map (item_tree_with tree_of) s) = flat_map (flat_map (elem_occ expr_occurrences)) s.
+Proof.
+  induction 1 as [|t s Ht Hs IH]; [reflexivity|].
+  cbn [map flat_map]. rewrite occ_forest_cons, IH, (item_tree_occ t Ht). reflexivity.
+Qed.
+
+Lemma seq_children_occ s : Forall (Forall (c14_opt_all tree_ok)) s ->
+  occ_forest (seq_children_with tree_of s) = flat_map (flat_map (elem_occ expr_occurrences)) s.
+Proof.
+  intros H. unfold seq_children_with.
+  assert (Hchain : occ_forest [Node OChain (map (item_tree_with tree_of) s)] =
+                   flat_map (flat_map (elem_occ expr_occurrences)) s).
+  { rewrite occ_forest_cons, occ_forest_nil, app_nil_r, occurrences_incl_eq. cbn [nop nch occurrence_of app].
+    apply item_trees_occ, H. }
+  destruct s as [|t [|t2 s]]; try exact Hchain.
+  inversion H as [|? ? Ht _]; subst. cbn [flat_map]. rewrite app_nil_r.
+  assert (Htuple : occ_forest [Node OTuple (map (elem_root_with tree_of) t)] = flat_map (elem_occ expr_occurrences) t).
+  { rewrite occ_forest_cons, occ_forest_nil, app_nil_r. apply tuple_node_occ, Ht. }
+  destruct t as [|el [|el2 t]]; try exact Htuple.
+  inversion Ht as [|? ? Hel _]; subst. cbn [flat_map]. rewrite app_nil_r.
+  destruct el as [e|]; cbn [elem_occ]; [|reflexivity].
+  rewrite occ_forest_cons, occ_forest_nil, app_nil_r. exact Hel.
+Qed.
+
+Lemma tree_occurrences e : occurrences_incl (tree_of e) = expr_occurrences e.
+Proof.
+  change (tree_ok e).
+  induction e as [l|x|o l r IHl IHr|u e IHe|a x e IHe|f a IHa|s IHs] using c14_expr_ind; unfold tree_ok in *.
+  - destruct l; reflexivity.
+  - reflexivity.
+  - cbn [tree_of expr_occurrences]. rewrite occurrences_incl_eq. cbn [nop nch].
+    rewrite !occ_forest_cons, occ_forest_nil, app_nil_r, IHl, IHr. destruct o; reflexivity.
+  - cbn [tree_of expr_occurrences]. rewrite occurrences_incl_eq. cbn [nop nch].
+    rewrite !occ_forest_cons, occ_forest_nil, app_nil_r, IHe. destruct u; reflexivity.
+  - cbn [tree_of expr_occurrences]. rewrite occurrences_incl_eq. cbn [nop nch].
+    rewrite !occ_forest_cons, occ_forest_nil, app_nil_r, IHe. destruct a; reflexivity.
+  - cbn [tree_of expr_occurrences]. rewrite occurrences_incl_eq. cbn [nop nch].
+    rewrite !occ_forest_cons, occ_forest_nil, app_nil_r, IHa. reflexivity.
+  - cbn [tree_of expr_occurrences]. rewrite occurrences_incl_eq. cbn [nop nch occurrence_of app].
+    apply seq_children_occ, IHs.
+Qed.
+
+Lemma all_tree_ok (s : seq) : Forall (Forall (c14_opt_all tree_ok)) s.
+Proof.
+  rewrite Forall_forall. intros t _. rewrite Forall_forall. intros [e|] _; [apply tree_occurrences|exact I].
+Qed.
+
+Lemma tree_seq_occurrences s : occurrences (tree_of_seq_top s) = seq_occurrences s.
+Proof. unfold tree_of_seq_top. rewrite occurrences_eq. cbn [nch]. apply seq_children_occ, all_tree_ok. Qed.
+
+(* ---- the token side ---- *)
+
+(* what may follow a complete operand *)
+Definition follows_ok (rest : list token) : Prop :=
+  match rest with [] => True | t :: _ => assignment_token t = false /\ starts_operand t = false end.
+
+(* a token sequence whose identifier classes do not depend on what follows, as long as that is
+   not an assignment operator and not the start of an operand *)
+Definition tok_part (p : list token) (occ : list occurrence) : Prop :=
+  forall rest, follows_ok rest -> token_occurrences (p ++ rest) = occ ++ token_occurrences rest.
+
+Definition is_separator (t : token) : Prop :=
+  assignment_token t = false /\ starts_operand t = false /\ (forall x, t <> TIdentifier x).
+
+Lemma token_occurrences_skip t ts : (forall x, t <> TIdentifier x) -> token_occurrences (t :: ts) = token_occurrences ts.
+Proof. intros H. destruct t; try reflexivity. exfalso. exact (H s eq_refl). Qed.
+
+Lemma token_occurrences_ident x ts :
+  token_occurrences (TIdentifier x :: ts) = (class_by_next (hd_error ts), x) :: token_occurrences ts.
+Proof. reflexivity. Qed.
+
+Lemma tok_part_nil : tok_part [] [].
+Proof. intros rest _. reflexivity. Qed.
+
+Lemma tok_part_sep_parts sep parts occs : is_separator sep -> Forall2 tok_part parts occs ->
+  forall rest, follows_ok rest ->
+  token_occurrences (flat_map (fun q => sep :: q) parts ++ rest) = concat occs ++ token_occurrences rest /\
+  follows_ok (flat_map (fun q => sep :: q) parts ++ rest).
+Proof.
+  intros (Hs1 & Hs2 & Hs3). induction 1 as [|p o parts occs Hp Hparts IH]; intros rest Hrest.
+  - cbn [flat_map concat app]. split; [reflexivity|exact Hrest].
+  - cbn [flat_map concat]. destruct (IH rest Hrest) as [IH1 IH2]. split.
+    + rewrite <- app_assoc. cbn [app]. rewrite (token_occurrences_skip sep _ Hs3), <- app_assoc.
+      rewrite (Hp _ IH2), IH1, app_assoc. reflexivity.
+    + cbn [app follows_ok]. split; assumption.
+Qed.
+
+Lemma tok_part_join sep parts occs : is_separator sep -> Forall2 tok_part parts occs ->
+  tok_part (join sep parts) (concat occs).
+Proof.
+  intros Hsep H. destruct H as [|p o parts occs Hp Hparts]; [exact tok_part_nil|].
+  intros rest Hrest. cbn [join concat].
+  destruct (tok_part_sep_parts sep parts occs Hsep Hparts rest Hrest) as [H1 H2].
+  rewrite <- !app_assoc. rewrite (Hp _ H2), H1. reflexivity.
+Qed.
+
+Lemma concat_map_flat_map {A B} (f : A -> list B) l : concat (map f l) = flat_map f l.
+Proof. induction l as [|a l IH]; [reflexivity|]. cbn [map concat flat_map]. rewrite IH. reflexivity. Qed.
+
+Definition tok_ok (e : expr) : Prop := forall F, ok F e = true -> tok_part (flatten e) (expr_occurrences e).
+
+Lemma comma_separator : is_separator TComma.
+Proof. repeat split; discriminate. Qed.
+Lemma semicolon_separator : is_separator TSemicolon.
+Proof. repeat split; discriminate. Qed.
+
+Lemma tok_part_tuple t : Forall (c14_opt_all tok_ok) t ->
+  forallb (fun el => match el with None => true | Some e => ok [] e end) t = true ->
+  tok_part (join TComma (map (fun el => match el with None => [] | Some e => flatten e end) t))
+           (flat_map (elem_occ expr_occurrences) t).
+Proof.
+  intros Hall Hok. rewrite <- concat_map_flat_map. apply tok_part_join; [exact comma_separator|].
+  induction Hall as [|el t Hel Ht IH]; cbn [map]; [constructor|].
+  cbn [forallb] in Hok. apply andb_prop in Hok. destruct Hok as [Hok1 Hok2].
+  constructor; [|exact (IH Hok2)].
+  destruct el as [e|]; cbn [elem_occ]; [exact (Hel [] Hok1)|exact tok_part_nil].
+Qed.
+
+Lemma tok_part_seq s : Forall (Forall (c14_opt_all tok_ok)) s -> ok_seq_with (ok []) s = true ->
+  tok_part (flatten_seq_with flatten s) (flat_map (flat_map (elem_occ expr_occurrences)) s).
+Proof.
+  intros Hall Hok. unfold flatten_seq_with. rewrite <- concat_map_flat_map.
+  apply tok_part_join; [exact semicolon_separator|].
+  unfold ok_seq_with in Hok. apply andb_prop in Hok. destruct Hok as [_ Hok].
+  induction Hall as [|t s Ht Hs IH]; cbn [map]; [constructor|].
+  cbn [forallb] in Hok. apply andb_prop in Hok. destruct Hok as [Hok1 Hok2].
+  apply andb_prop in Hok1. destruct Hok1 as [_ Hok1].
+  constructor; [exact (tok_part_tuple t Ht Hok1)|exact (IH Hok2)].
+Qed.
+
+Lemma binop_token_separator o : is_separator (tok_of_binop o).
+Proof. destruct o; repeat split; discriminate. Qed.
+
+Lemma is_arg_head a : is_arg a = true -> exists t ts, flatten a = t :: ts /\ assignment_token t = false /\ starts_operand t = true.
+Proof.
+  destruct a as [l|x|o l r|u e|a0 x e|f a0|s]; try discriminate; intros _; cbn [flatten].
+  - destruct l; eexists; eexists; repeat split.
+  - eexists; eexists; repeat split.
+  - eexists; eexists; repeat split.
+  - eexists; eexists; repeat split.
+Qed.
+
+Lemma tok_expr e : tok_ok e.
+Proof.
+  induction e as [l|x|o l r IHl IHr|u e IHe|a x e IHe|f a IHa|s IHs] using c14_expr_ind; intros F Hok.
+  - intros rest _. cbn [flatten expr_occurrences app]. apply token_occurrences_skip. destruct l; discriminate.
+  - intros rest Hrest. cbn [flatten expr_occurrences app]. rewrite token_occurrences_ident. f_equal. f_equal.
+    destruct rest as [|t rest]; [reflexivity|]. destruct Hrest as [H1 H2]. cbn [hd_error class_by_next]. rewrite H1, H2. reflexivity.
+  - cbn [ok] in Hok. apply andb_prop in Hok. destruct Hok as [Hok Hr]. apply andb_prop in Hok. destruct Hok as [Hok _].
+    apply andb_prop in Hok. destruct Hok as [Hl _].
+    intros rest Hrest. cbn [flatten expr_occurrences]. rewrite <- !app_assoc. cbn [app].
+    destruct (binop_token_separator o) as (Hs1 & Hs2 & Hs3).
+    rewrite (IHl F Hl); [|cbn [follows_ok]; split; assumption].
+    rewrite (token_occurrences_skip _ _ Hs3), (IHr _ Hr rest Hrest). reflexivity.
+  - cbn [ok] in Hok. intros rest Hrest. cbn [flatten expr_occurrences app].
+    rewrite token_occurrences_skip by (destruct u; discriminate). exact (IHe _ Hok rest Hrest).
+  - cbn [ok] in Hok. apply andb_prop in Hok. destruct Hok as [_ He].
+    intros rest Hrest. cbn [flatten expr_occurrences app]. rewrite token_occurrences_ident.
+    change (hd_error (tok_of_asgop a :: flatten e ++ rest)) with (Some (tok_of_asgop a)).
+    assert (Ha : assignment_token (tok_of_asgop a) = true) by (destruct a; reflexivity).
+    unfold class_by_next. rewrite Ha.
+    rewrite token_occurrences_skip by (destruct a; discriminate). rewrite (IHe _ He rest Hrest). reflexivity.
+  - cbn [ok] in Hok. apply andb_prop in Hok. destruct Hok as [Harg Ha].
+    intros rest Hrest. cbn [flatten expr_occurrences app]. rewrite token_occurrences_ident.
+    destruct (is_arg_head a Harg) as (t & ts & Ef & Ht1 & Ht2).
+    rewrite (IHa _ Ha rest Hrest). f_equal. f_equal.
+    rewrite Ef. cbn [app hd_error class_by_next]. rewrite Ht1, Ht2. reflexivity.
+  - cbn [ok] in Hok. intros rest Hrest. cbn [flatten expr_occurrences app].
+    rewrite token_occurrences_skip by discriminate. rewrite <- app_assoc.
+    rewrite (tok_part_seq s IHs Hok); [|cbn [app follows_ok]; split; reflexivity].
+    cbn [app]. rewrite token_occurrences_skip by discriminate. reflexivity.
+Qed.
+
+Lemma all_tok_ok (s : seq) : Forall (Forall (c14_opt_all tok_ok)) s.
+Proof.
+  rewrite Forall_forall. intros t _. rewrite Forall_forall. intros [e|] _; [apply tok_expr|exact I].
+Qed.
+
+(* ---- both sides together ---- *)
+
+Lemma source_order_expr F e : ok F e = true ->
+  occurrences_incl (tree_of e) = token_occurrences (flatten e) /\
+  iter_identifiers (Node ORootNode [tree_of e]) = Ok (map snd (token_occurrences (flatten e))).
+Proof.
+  intros Hok.
+  assert (H : occurrences_incl (tree_of e) = token_occurrences (flatten e)).
+  { rewrite tree_occurrences. pose proof (tok_expr e F Hok [] I) as H. rewrite !app_nil_r in H. symmetry. exact H. }
+  split; [exact H|].
+  destruct (classes_occurrences (Node ORootNode [tree_of e])) as [-> _]. rewrite <- H.
+  rewrite occurrences_eq. cbn [nch]. rewrite occ_forest_cons, occ_forest_nil, app_nil_r. reflexivity.
+Qed.
+
+Lemma source_order_seq s : ok_seq s ->
+  occurrences (tree_of_seq_top s) = token_occurrences (flatten_seq s) /\
+  iter_identifiers (tree_of_seq_top s) = Ok (map snd (token_occurrences (flatten_seq s))) /\
+  iter_variable_identifiers (tree_of_seq_top s) = Ok (names is_variable (token_occurrences (flatten_seq s))) /\
+  iter_read_variable_identifiers (tree_of_seq_top s) = Ok (names is_read (token_occurrences (flatten_seq s))) /\
+  iter_write_variable_identifiers (tree_of_seq_top s) = Ok (names is_write (token_occurrences (flatten_seq s))) /\
+  iter_function_identifiers (tree_of_seq_top s) = Ok (names is_function (token_occurrences (flatten_seq s))).
+Proof.
+  intros Hok.
+  assert (H : occurrences (tree_of_seq_top s) = token_occurrences (flatten_seq s)).
+  { rewrite tree_seq_occurrences. pose proof (tok_part_seq s (all_tok_ok s) Hok [] I) as H.
+    rewrite !app_nil_r in H. symmetry. exact H. }
+  split; [exact H|]. rewrite <- H. apply classes_occurrences.
+Qed.
+
+(* the classification by the next token is the one of the builder's token -> operator match *)
+Lemma class_by_next_builder x next lr :
+  token_to_operator (TIdentifier x) next lr = Some (op_of_class (class_by_next next) x).
+Proof.
+  destruct next as [t|]; [|reflexivity]. destruct t; reflexivity.
+Qed.
+
+(* the trees of the grammar satisfy the side conditions of C14_not_found and C14_rename *)
+Definition wat_ok (e : expr) : Prop := writes_are_targets (tree_of e).
+
+Lemma wat_elem_root el : c14_opt_all wat_ok el -> writes_are_targets (elem_root_with tree_of el).
+Proof.
+  intros H. unfold elem_root_with. apply wat_other; [reflexivity|discriminate|].
+  destruct el as [e|]; [constructor; [exact H|constructor]|constructor].
+Qed.
+
+Lemma wat_elem_roots t : Forall (c14_opt_all wat_ok) t -> Forall writes_are_targets (map (elem_root_with tree_of) t).
+Proof. induction 1 as [|el t Hel Ht IH]; cbn [map]; constructor; [apply wat_elem_root, Hel|exact IH]. Qed.
+
+Lemma wat_item_tree t : Forall (c14_opt_all wat_ok) t -> writes_are_targets (item_tree_with tree_of t).
+Proof.
+  intros H. unfold item_tree_with.
+  assert (Ht : writes_are_targets (Node OTuple (map (elem_root_with tree_of) t))).
+  { apply wat_other; [reflexivity|discriminate|apply wat_elem_roots, H]. }
+  destruct t as [|el [|el2 t]]; try exact Ht.
+  inversion H as [|? ? Hel _]; subst. apply wat_elem_root, Hel.
+Qed.
+
+Lemma wat_seq_children s : Forall (Forall (c14_opt_all wat_ok)) s -> Forall writes_are_targets (seq_children_with tree_of s).
+Proof.
+  intros H. unfold seq_children_with.
+  assert (Hc : Forall writes_are_targets [Node OChain (map (item_tree_with tree_of) s)]).
+  { constructor; [|constructor]. apply wat_other; [reflexivity|discriminate|].
+    induction H as [|t s Ht Hs IH]; cbn [map]; constructor; [apply wat_item_tree, Ht|exact IH]. }
+  destruct s as [|t [|t2 s]]; try exact Hc.
+  inversion H as [|? ? Ht _]; subst.
+  assert (Htu : Forall writes_are_targets [Node OTuple (map (elem_root_with tree_of) t)]).
+  { constructor; [|constructor]. apply wat_other; [reflexivity|discriminate|apply wat_elem_roots, Ht]. }
+  destruct t as [|el [|el2 t]]; try exact Htu.
+  inversion Ht as [|? ? Hel _]; subst. destruct el as [e|]; [constructor; [exact Hel|constructor]|constructor].
+Qed.
+
+Lemma wat_tree_of e : writes_are_targets (tree_of e).
+Proof.
+  change (wat_ok e).
+  induction e as [l|x|o l r IHl IHr|u e IHe|a x e IHe|f a IHa|s IHs] using c14_expr_ind; unfold wat_ok in *; cbn [tree_of].
+  - apply wat_other; [reflexivity|discriminate|constructor].
+  - apply wat_other; [reflexivity|discriminate|constructor].
+  - apply wat_other; [destruct o; reflexivity|destruct o; discriminate|]. constructor; [exact IHl|constructor; [exact IHr|constructor]].
+  - apply wat_other; [destruct u; reflexivity|destruct u; discriminate|]. constructor; [exact IHe|constructor].
+  - apply wat_assign; [destruct a; reflexivity|]. constructor; [exact IHe|constructor].
+  - apply wat_other; [reflexivity|discriminate|]. constructor; [exact IHa|constructor].
+  - apply wat_other; [reflexivity|discriminate|]. apply wat_seq_children, IHs.
+Qed.
+
+Lemma wat_tree_of_seq_top s : writes_are_targets (tree_of_seq_top s) /\ ident_any (nop (tree_of_seq_top s)) = None.
+Proof.
+  split; [|reflexivity]. unfold tree_of_seq_top. apply wat_other; [reflexivity|discriminate|].
+  apply wat_seq_children. rewrite Forall_forall. intros t _. rewrite Forall_forall. intros [e|] _; [apply wat_tree_of|exact I].
+Qed.
